@@ -88,6 +88,7 @@ class Harness(cm.BaseB):
             out.append({"k": "reuse", "dev": dev})
             out.append({"k": "nosplit", "dev": dev})
             out.append({"k": "invalid", "dev": dev})
+            out.append({"k": "lifetime", "dev": dev})
         return out
 
     def cases(self, chunk):
@@ -124,6 +125,9 @@ class Harness(cm.BaseB):
                 for li in subfamily()[:24]:
                     for pb in ("auto", "source"):
                         yield {"k": "reuse", "dev": chunk["dev"], "first": first, "tr": li, "pb": pb}
+        elif chunk["k"] == "lifetime":
+            for wells in (["A02", "B02", "B03"], ["B01", "A03"], ["B02"]):
+                yield {"k": "lifetime", "dev": chunk["dev"], "wells": wells}
         elif chunk["k"] == "shapes":
             for sk in ("plate", "trough"):
                 for pb in ("auto", "source", "destination"):
@@ -142,9 +146,31 @@ class Harness(cm.BaseB):
             yield {"k": "bad", "dev": chunk["dev"], "lens": [2, 2, 1], "neg": [0, -10]}
 
     # ------------------------------------------------------------------
+    def one_lifetime(self, case):
+        """one worklist object outlives many labware objects (cm.lifetime_scenario)"""
+        dev = "evo" if case["dev"] == "EvoWorklist" else "fluent"
+        wl = getattr(rt, case["dev"])(max_volume=MAXV)
+
+        def check(recs, gs, gd):
+            P = [gwl.parse(r) for r in recs["w"]]
+            a = sorted(p["position"] for p in P if p["kind"] == "A")
+            d = sorted(p["position"] for p in P if p["kind"] == "D")
+            if a != sorted(gs.position(dev, w) for w in case["wells"]) or d != sorted(gd.position(dev, w) for w in case["wells"]):
+                return "records address other positions than those of the named wells"
+            return None
+
+        try:
+            problem = cm.lifetime_scenario({"w": wl}, case["wells"], check)
+        except Exception as e:
+            return "lifetime:raised", None, [("C07/valid-transfer-raised", f"on a long-lived worklist: {type(e).__name__}")]
+        V = [("C07/flows", f"one {case['dev']} used with labware objects that were created and dropped one after the other: {problem}")] if problem else []
+        return "lifetime:ok", f"lifetime{case}", V
+
     def one(self, case):
         if case["k"] == "bad":
             return self.one_bad(case)
+        if case["k"] == "lifetime":
+            return self.one_lifetime(case)
         if case["k"] == "reuse":
             # the same worklist object first sees labware "S"/"D" of one geometry, then of another
             second = "trough" if case["first"] == "plate" else "plate"
